@@ -21,6 +21,7 @@ structure MetaFactsN (ft : Feat) (Γ : Ctx) (ci : ClassInfo) (m : XmlMeta) : Pro
     | some tv => m.elementVars = [tv] ∧ FN.textVarOK ft ci tv = true
   idxNodup : (m.elementVars.map (·.index)).Nodup
   qnNodup : (m.elementVars.map (·.qname)).Nodup
+  seqOK : FN.seqOK (m.elementVars.length + 1) m.elementVars = true
   nameNodup : ((m.attributeVars ++ m.elementVars).map (·.name)).Nodup
   fieldNodup : (ci.fields.map (·.name)).Nodup
   covered : ∀ f ∈ ci.fields, ∃ var ∈ m.attributeVars ++ m.elementVars, var.name = f.name
@@ -29,9 +30,9 @@ theorem metaFactsN_of {ft : Feat} {Γ : Ctx} {ci : ClassInfo} {m : XmlMeta}
     (h : metaOK ft Γ ci m = true) : MetaFactsN ft Γ ci m := by
   simp only [metaOK, Bool.and_eq_true, decide_eq_true_eq, Bool.not_eq_true', List.isEmpty_iff,
     List.all_eq_true, List.any_eq_true] at h
-  obtain ⟨⟨⟨⟨⟨⟨⟨⟨⟨⟨⟨⟨⟨⟨⟨h1, _⟩, h3⟩, h4⟩, h5⟩, h6⟩, h6b⟩, h7⟩, h8⟩, h9⟩, h10⟩, h11⟩, h11b⟩, h12⟩, h13⟩,
-    h14⟩ := h
-  refine ⟨h1, ?_, h4, h5, h6, h6b, ?_, h8, h9, ?_, h11, h11b, h12, h13, ?_⟩
+  obtain ⟨⟨⟨⟨⟨⟨⟨⟨⟨⟨⟨⟨⟨⟨⟨⟨h1, _⟩, h3⟩, h4⟩, h5⟩, h6⟩, h6b⟩, h7⟩, h8⟩, h9⟩, h10⟩, h11⟩, h11b⟩, h11c⟩, h12⟩,
+    h13⟩, h14⟩ := h
+  refine ⟨h1, ?_, h4, h5, h6, h6b, ?_, h8, h9, ?_, h11, h11b, h11c, h12, h13, ?_⟩
   · intro hq; simp [hq] at h3
   · intro ww hww
     obtain ⟨v, hv, hvw⟩ := h7 ww hww
@@ -53,7 +54,7 @@ theorem ctx_metaFactsN {ft : Feat} {Γ : Ctx} (hΓ : ctxOK ft Γ = true) {c : Cl
   refine ⟨metaFactsN_of hmo, ?_⟩
   simp only [metaOK, Bool.and_eq_true, Bool.or_eq_true, Bool.not_eq_true'] at hmo
   intro hn
-  have := hmo.1.1.1.1.1.1.1.1.1.1.1.1.1.1.2
+  have := hmo.1.1.1.1.1.1.1.1.1.1.1.1.1.1.1.2
   simpa [hn] using this
 
 theorem primTypeOf_some {v : XmlVar} {t : PT} (h : primTypeOf v = some t) :
@@ -71,7 +72,7 @@ theorem attrFactsN_of {ft : Feat} {e : BEnv} {Γ : Ctx} {m : XmlMeta} {ci : Clas
     (hx : FN.attrValOK e Γ ci var (look fields var.name) = true)
     (hnames : fields.map (·.1) = ci.fields.map (·.name)) : AttrFactsN e Γ m fields var := by
   simp only [FN.attrVarOK, FN.varBase, Bool.and_eq_true, decide_eq_true_eq, Bool.not_eq_true'] at hv
-  obtain ⟨⟨⟨⟨⟨⟨⟨⟨hA, hB⟩, _⟩, _⟩, hfind⟩, hnil⟩, hty⟩, htypes⟩, hfa⟩ := hv
+  obtain ⟨⟨⟨⟨⟨⟨⟨⟨⟨hA, hB⟩, _⟩, _⟩, _⟩, hfind⟩, hnil⟩, hty⟩, htypes⟩, hfa⟩ := hv
   have hinit : var.init = true := hB.1.1.1.1.1.1.1.1
   obtain ⟨f, hf, _, _⟩ := fieldAgrees_iff.1 hfa
   refine ⟨hA, hinit, hfind, hnil, hty, by rw [hnames]; exact mem_names_of_find hf, ?_⟩
@@ -119,7 +120,7 @@ theorem elemFactsN_of {ft : Feat} {Γ : Ctx} {m : XmlMeta} {ci : ClassInfo} {var
   have hkey : var.qname ∈ m.elements.map (·.1) := by
     have := List.mem_of_find?_eq_some hfind
     exact List.mem_map.2 ⟨_, this, rfl⟩
-  refine ⟨⟨hA, hinit, hmixed, hany, hseq, hunion, ?_, hidx, hfind, ?_, ?_⟩, ?_, hfa, ?_⟩
+  refine ⟨⟨hA, hinit, hmixed, hany, hunion, ?_, hidx, hfind, ?_, ?_⟩, ?_, hfa, ?_⟩
   · intro h; simp [h] at hq
   · -- the qname of an element var is not the name of a wrapper
     cases hb : m.wrappers.any (·.1 = var.qname) with
@@ -142,7 +143,7 @@ theorem elemFactsN_of {ft : Feat} {Γ : Ctx} {m : XmlMeta} {ci : ClassInfo} {var
           subst hv
           have htv := this.2
           simp only [FN.textVarOK, Bool.and_eq_true, Option.isNone_iff_eq_none] at htv
-          rw [htv.1.1.2] at hvw; cases hvw
+          rw [htv.1.1.1.2] at hvw; cases hvw
       simp only [FN.elemVarOK, Bool.and_eq_true] at hvok
       have hw2 := hvok.1.1.2
       rw [hvw] at hw2
